@@ -22,7 +22,11 @@ package services
 import (
 	"context"
 	"errors"
+	"fmt"
 	"strings"
+	"unicode/utf8"
+
+	"entgo.io/ent/dialect/sql"
 
 	"google.golang.org/grpc"
 
@@ -44,6 +48,22 @@ func projectSubscriptionPrefix(project string) string {
 
 func projectSnapshotPrefix(project string) string {
 	return project + "/snapshots/"
+}
+
+// nameHasExactPrefix matches rows whose column starts with prefix, character
+// for character. The generated NameHasPrefix predicates are a LIKE, which
+// SQLite evaluates case-insensitively for ASCII letters, so on their own they
+// would also list the resources of a project whose name differs only by case.
+func nameHasExactPrefix(column, prefix string) func(*sql.Selector) {
+	return func(s *sql.Selector) {
+		s.Where(sql.P(func(b *sql.Builder) {
+			b.WriteString(fmt.Sprintf(
+				"substr(%s, 1, %d) = ",
+				b.Quote(column), // same table as the rest of the predicates
+				utf8.RuneCountInString(prefix),
+			)).Arg(prefix)
+		}))
+	}
 }
 
 func isValidTopicName(name string) bool {
